@@ -215,7 +215,13 @@ def enumerate_paths(fn, fn_lookup: Optional[Callable[[ast.Call], Optional[ast.AS
                 out.append(Path(conds, nodes + [nid], "raise", n.stmt.value, ev, marks))
                 return
         succs = sorted(cfg.succ[nid])
+        second_visit = n.kind == "loop" and nodes.count(nid) >= 1
         for b, lab in succs:
+            if n.kind == "loop":
+                if second_visit and lab in ("iter", "true"):
+                    continue  # after one iteration only the exit of the loop is followed
+                if not second_visit and lab in ("exhausted",) and _nonempty_literal(getattr(n.stmt, "iter", None)):
+                    continue  # a loop over a non-empty literal runs at least once
             if lab in ("may-raise",):
                 # exceptional edge out of a try body: only follow when the statement is an explicit noreturn call (handled above)
                 # or when following handlers matters (KeyError lookups); keep it as an explicit branch with a pseudo atom
@@ -224,7 +230,7 @@ def enumerate_paths(fn, fn_lookup: Optional[Callable[[ast.Call], Optional[ast.AS
                     continue
                 walk(b, conds + [(atom, True)], nodes + [nid], ev, visited | {b}, marks)
                 continue
-            if b in visited and cfg.nodes[b].kind == "loop":
+            if b in visited and cfg.nodes[b].kind == "loop" and nodes.count(b) >= 2:
                 continue
             nc = conds
             if n.kind == "test" and lab in ("true", "false"):
@@ -243,6 +249,18 @@ def enumerate_paths(fn, fn_lookup: Optional[Callable[[ast.Call], Optional[ast.AS
 
     walk(cfg.entry.id, [], [], [], {cfg.entry.id}, {})
     return out
+
+
+def _nonempty_literal(it) -> bool:
+    if it is None:
+        return False
+    if isinstance(it, ast.Call) and isinstance(it.func, ast.Attribute) and it.func.attr in ("items", "keys", "values") and not it.args:
+        it = it.func.value
+    if isinstance(it, (ast.List, ast.Tuple, ast.Set)):
+        return len(it.elts) > 0
+    if isinstance(it, ast.Dict):
+        return len(it.keys) > 0
+    return False
 
 
 def truth_table(paths: Sequence[Path], extra_atoms: Sequence[str] = ()):
@@ -265,3 +283,126 @@ def atoms_of(paths: Sequence[Path]) -> List[str]:
         for c, _ in p.conds:
             s |= c.atoms()
     return sorted(s)
+
+
+# --------------------------------------------------------------------------
+# values along one path
+# --------------------------------------------------------------------------
+def value_on_path(path: Path, cfg: CFG, expr: ast.AST, upto: Optional[int] = None, depth: int = 10) -> ast.AST:
+    """`expr` with every local name replaced by the value last assigned to it on this path before
+    position `upto` (index into path.nodes; default: the end).  Names bound by loops / with / unpacking,
+    parameters and globals are left as they are."""
+    from .dataflow import clone
+
+    if expr is None:
+        return None
+    if upto is None:
+        upto = len(path.nodes)
+
+    def last_def(name: str, before: int):
+        for i in range(before - 1, -1, -1):
+            n = cfg.nodes[path.nodes[i]]
+            st = n.stmt
+            if st is None or n.kind in ("join", "handlers", "test", "loop"):
+                if n.kind == "looptarget" and st is not None:
+                    for t in ast.walk(st.target):
+                        if isinstance(t, ast.Name) and t.id == name:
+                            return i, None
+                continue
+            if isinstance(st, ast.Assign) and n.kind == "assign":
+                for t in st.targets:
+                    if isinstance(t, ast.Name) and t.id == name:
+                        return i, st.value
+                    if isinstance(t, (ast.Tuple, ast.List)) and any(isinstance(e, ast.Name) and e.id == name for e in t.elts):
+                        if isinstance(st.value, (ast.Tuple, ast.List)) and len(st.value.elts) == len(t.elts):
+                            for e, v in zip(t.elts, st.value.elts):
+                                if isinstance(e, ast.Name) and e.id == name:
+                                    return i, v
+                        return i, None
+            elif isinstance(st, ast.AnnAssign) and n.kind == "annassign" and isinstance(st.target, ast.Name) and st.target.id == name:
+                return i, st.value
+            elif isinstance(st, ast.AugAssign) and isinstance(st.target, ast.Name) and st.target.id == name:
+                return i, None
+            elif n.kind in ("with", "except", "looptarget"):
+                for x in ast.walk(st):
+                    if isinstance(x, ast.Name) and isinstance(x.ctx, ast.Store) and x.id == name:
+                        return i, None
+        return None, None
+
+    class Sub(ast.NodeTransformer):
+        def __init__(self, before, depth):
+            self.before, self.depth = before, depth
+
+        def visit_Name(self, node):
+            if not isinstance(node.ctx, ast.Load) or self.depth <= 0:
+                return node
+            i, v = last_def(node.id, self.before)
+            if i is None or v is None:
+                return node
+            return Sub(i, self.depth - 1).visit(clone(v))
+
+        def visit_Lambda(self, node):
+            return node
+
+    return Sub(upto, depth).visit(clone(expr))
+
+
+def simple_conds(conds) -> Dict[str, bool]:
+    """atom -> truth for the plain-atom conditions of a path (compound conditions are split when their
+    truth fixes the atoms: a true conjunction, a false disjunction)"""
+    out: Dict[str, bool] = {}
+
+    def add(c: Cond, want: bool):
+        if c.kind == "atom":
+            if c.atom != "True":
+                out[c.atom] = want if c.pol else not want
+        elif c.kind == "not":
+            add(c.items[0], not want)
+        elif c.kind == "and" and want:
+            for i in c.items:
+                add(i, True)
+        elif c.kind == "or" and not want:
+            for i in c.items:
+                add(i, False)
+
+    for c, w in conds:
+        add(c, w)
+    return out
+
+
+def return_paths(fn, fn_lookup=None, expander=None):
+    """[(path, resolved returned expression text, simple conditions)] for every normally returning path, plus the PathList"""
+    from .match import text as _text
+
+    pths = enumerate_paths(fn, fn_lookup, expander)
+    out = []
+    for p in pths:
+        if p.outcome == "return":
+            v = value_on_path(p, pths.cfg, p.value, upto=len(p.nodes) - 1) if p.value is not None else None
+            out.append((p, _text(v) if v is not None else "None", simple_conds(p.conds)))
+        elif p.outcome == "fall":
+            out.append((p, "None", simple_conds(p.conds)))
+    return out, pths
+
+
+def implies(conds, goal: Cond, max_atoms: int = 12) -> Optional[bool]:
+    """do the path conditions force `goal`?  (exhaustive over the atoms involved; None if too many)"""
+    atoms: Set[str] = set(goal.atoms())
+    for c, _ in conds:
+        atoms |= c.atoms()
+    al = sorted(atoms)
+    if len(al) > max_atoms:
+        return None
+    for vals in itertools.product([False, True], repeat=len(al)):
+        env = dict(zip(al, vals))
+        if all(c.ev(env) == w for c, w in conds) and not goal.ev(env):
+            return False
+    return True
+
+
+def atom(text_: str, pol: bool = True) -> Cond:
+    return Cond("atom", atom=text_, pol=pol)
+
+
+def any_of(*cs: Cond) -> Cond:
+    return Cond("or", list(cs))
